@@ -423,20 +423,21 @@ save form that leaves a section slot unfilled is reported as `panic` (Go returns
 name and the status; `ChunkFromSave` of that save form succeeds, puts every section back into its slot (the
 index `int32(Y) − YPos` is `k` again), with the same block states and biomes (in well-formed containers), the
 counter recomputed exactly, the same light arrays, the same six height maps and the same status. -/
-theorem C13_save_roundtrip_sections {DS DB} (R : Registry DS DB) (gbS gbB : Nat) (ypos : BitVec 32) (c : Chunk)
+theorem C13_save_roundtrip_sections {DS DB} (R : Registry DS DB) (gbS gbB : Nat) (dst₀ : SaveChunk DS DB) (c : Chunk)
     (hn : c.secs.length < 2 ^ 31)
-    (hy : ∀ k : Nat, k < c.secs.length → -128 ≤ (k : Int) + ypos.toInt ∧ (k : Int) + ypos.toInt ≤ 127)
+    (hy : ∀ k : Nat, k < c.secs.length → -128 ≤ (k : Int) + dst₀.ypos.toInt ∧ (k : Int) + dst₀.ypos.toInt ≤ 127)
     (hsecs : ∀ s ∈ c.secs, SecSaveRT R gbS gbB s) (hhm : HmOK c.secs.length c.hm) :
-    ∃ sv c', chunkToSave R gbS gbB ypos c = .ok sv ∧ chunkFromSave R gbS gbB sv = .ok c' ∧
+    ∃ sv c', chunkToSave R gbS gbB dst₀ c = .ok sv ∧ chunkFromSave R gbS gbB sv = .ok c' ∧
+      sv.otherHM = dst₀.otherHM ∧ sv.untouched = dst₀.untouched ∧ sv.ypos = dst₀.ypos ∧
       sv.secs.length = c.secs.length ∧
-      (∀ (k : Nat) (h : k < sv.secs.length), sv.secs[k].y = BitVec.setWidth 8 (BitVec.ofNat 32 k + ypos)) ∧
+      (∀ (k : Nat) (h : k < sv.secs.length), sv.secs[k].y = BitVec.setWidth 8 (BitVec.ofNat 32 k + dst₀.ypos)) ∧
       sv.hm = ⟨some c.hm.worldSurfaceWG.data, some c.hm.worldSurface.data, some c.hm.oceanFloorWG.data,
                some c.hm.oceanFloor.data, some c.hm.motionBlocking.data, some c.hm.motionBlockingNoLeaves.data⟩ ∧
       sv.status = c.status ∧
       c'.secs.length = c.secs.length ∧
       (∀ (k : Nat) (h1 : k < c'.secs.length) (h2 : k < c.secs.length), SecSame R.isAir gbS gbB c'.secs[k] c.secs[k]) ∧
       c'.hm = c.hm ∧ c'.status = c.status :=
-  save_roundtrip R gbS gbB ypos c hn hy hsecs hhm
+  save_roundtrip R gbS gbB dst₀ c hn hy hsecs hhm
 
 /-- a section survives the save form as soon as its two containers do -/
 theorem C13_save_section_of_containers {DS DB} (R : Registry DS DB) {gbS gbB : Nat} (hS : GbOK (blocksCfg gbS) gbS)
@@ -462,29 +463,33 @@ theorem C13_save_container {D} (desc : Int → Res D) (ofDesc : D → Option Int
 /-- **C13_save_roundtrip.**  Let `c` be a chunk whose sections hold well-formed containers, `R` a registry for which
 the description mapping leads back to every id that occurs in a palette (`Bij`: block-state ↔ (name, properties)
 — established on the whole real registry by the exhaustive test — and biome id ↔ name), `YPos + section index`
-inside int8, and the six height maps those of a chunk of this height.  Then `ChunkToSave` succeeds, stores
+inside int8, the six height maps those of a chunk of this height, and `dst₀` ANY prior content of the destination
+`save.Chunk` (a fresh one, or one filled before by another chunk with more or fewer sections, with light where this
+chunk has none, other height-map entries, another status, …).  Then `ChunkToSave` succeeds, keeps `YPos`, the other
+`Heightmaps` entries and every field it does not own, lets nothing of `dst₀`'s sections survive, stores
 section `k` under `Y = int8(k + YPos)`, each of the six height maps under its own name and the status; and
 `ChunkFromSave` of that save form succeeds and yields a chunk with, in every section, the same block states and
 biomes (in well-formed containers), `BlockCount` = the number of non-air blocks, the same light arrays; the same
 six height maps; the same status. -/
 theorem C13_save_roundtrip {DS DB} (R : Registry DS DB) {gbS gbB : Nat} (hS : GbOK (blocksCfg gbS) gbS)
-    (hB : GbOK (biomesCfg gbB) gbB) (ypos : BitVec 32) (c : Chunk)
+    (hB : GbOK (biomesCfg gbB) gbB) (dst₀ : SaveChunk DS DB) (c : Chunk)
     (hn : c.secs.length < 2 ^ 31)
-    (hy : ∀ k : Nat, k < c.secs.length → -128 ≤ (k : Int) + ypos.toInt ∧ (k : Int) + ypos.toInt ≤ 127)
+    (hy : ∀ k : Nat, k < c.secs.length → -128 ≤ (k : Int) + dst₀.ypos.toInt ∧ (k : Int) + dst₀.ypos.toInt ≤ 127)
     (hinv : ∀ s ∈ c.secs, SecDom gbS gbB s.core)
     (hbijS : ∀ s ∈ c.secs, ∀ v ∈ s.states.pal.export, BijAt R.descS R.stateOf v)
     (hbijB : ∀ s ∈ c.secs, ∀ v ∈ s.biomes.pal.export, BijAt R.descB R.biomeOf v)
     (hhm : HmOK c.secs.length c.hm) :
-    ∃ sv c', chunkToSave R gbS gbB ypos c = .ok sv ∧ chunkFromSave R gbS gbB sv = .ok c' ∧
+    ∃ sv c', chunkToSave R gbS gbB dst₀ c = .ok sv ∧ chunkFromSave R gbS gbB sv = .ok c' ∧
+      sv.otherHM = dst₀.otherHM ∧ sv.untouched = dst₀.untouched ∧ sv.ypos = dst₀.ypos ∧
       sv.secs.length = c.secs.length ∧
-      (∀ (k : Nat) (h : k < sv.secs.length), sv.secs[k].y = BitVec.setWidth 8 (BitVec.ofNat 32 k + ypos)) ∧
+      (∀ (k : Nat) (h : k < sv.secs.length), sv.secs[k].y = BitVec.setWidth 8 (BitVec.ofNat 32 k + dst₀.ypos)) ∧
       sv.hm = ⟨some c.hm.worldSurfaceWG.data, some c.hm.worldSurface.data, some c.hm.oceanFloorWG.data,
                some c.hm.oceanFloor.data, some c.hm.motionBlocking.data, some c.hm.motionBlockingNoLeaves.data⟩ ∧
       sv.status = c.status ∧
       c'.secs.length = c.secs.length ∧
       (∀ (k : Nat) (h1 : k < c'.secs.length) (h2 : k < c.secs.length), SecSame R.isAir gbS gbB c'.secs[k] c.secs[k]) ∧
       c'.hm = c.hm ∧ c'.status = c.status := by
-  apply C13_save_roundtrip_sections R gbS gbB ypos c hn hy ?_ hhm
+  apply C13_save_roundtrip_sections R gbS gbB dst₀ c hn hy ?_ hhm
   intro s hs
   exact secSaveRT_of R hS s
     (contSaveRT_all R.descS R.stateOf (blocksCfg gbS) gbS 4096 hS (by decide) s.states (hinv s hs).1 (hbijS s hs))
@@ -499,13 +504,13 @@ theorem C13_count_on_load {cfg : PalCfg} {gb : Nat} {c : PCont} (hgb : GbOK cfg 
 
 /-- non-vacuity: `EmptyChunk(1)` meets the hypotheses of the partial theorem for the identity registry -/
 example : ∃ sv c', chunkToSave (DS := Int) (DB := Int) ⟨fun v => .ok v, some, fun v => .ok v, some, fun v => v == 0⟩ 15 6
-      (BitVec.ofInt 32 (-4)) empty1 = .ok sv ∧
+      (SaveChunk.fresh (BitVec.ofInt 32 (-4))) empty1 = .ok sv ∧
     chunkFromSave ⟨fun v => .ok v, some, fun v => .ok v, some, fun v => v == 0⟩ 15 6 sv = .ok c' ∧ c'.hm = empty1.hm := by
   have hsec : SecSaveRT (DS := Int) (DB := Int) ⟨fun v => .ok v, some, fun v => .ok v, some, fun v => v == 0⟩ 15 6 sec0 := by
     apply secSaveRT_of _ C13_gbok_blocks
     · exact contSaveRT_single _ _ _ _ _ _ 0 _ (C12.C12_new (blocksCfg (15 : Nat)) 15 4096 0 ⟨by decide, by decide⟩).1 ⟨0, rfl, rfl⟩
     · exact contSaveRT_single _ _ _ _ _ _ 0 _ (C12.C12_new (biomesCfg (6 : Nat)) 6 64 0 ⟨by decide, by decide⟩).1 ⟨0, rfl, rfl⟩
-  obtain ⟨sv, c', h1, h2, _, _, _, _, _, _, h9, _⟩ := C13_save_roundtrip_sections _ 15 6 (BitVec.ofInt 32 (-4)) empty1
+  obtain ⟨sv, c', h1, h2, _, _, _, _, _, _, _, _, _, h9, _⟩ := C13_save_roundtrip_sections _ 15 6 (SaveChunk.fresh (DS := Int) (DB := Int) (BitVec.ofInt 32 (-4))) empty1
     (by decide) (by intro k hk; have : k = 0 := by simpa [empty1] using hk
                     subst this; decide)
     (by intro s hs; have : s = sec0 := by simpa [empty1] using hs
